@@ -61,8 +61,13 @@ def _ns(rec):
 
     ns = {f.__name__: f for f in selector.FUNCTION_WHITELIST}
     ns.update({"r": rec, "Type": _SpecType(rec), "net": net, "fields": rec._desc.getfields})
-    for w in ("string", "varint", "uint16", "uint32", "boolean", "float"):
-        ns[w] = getattr(dynamic_fieldtype, w)
+    # field type constructors denote the whitelisted field type classes themselves (resolved by fieldtype(), not through the selector's module object)
+    from flow.record.base import fieldtype
+    from flow.record.whitelist import WHITELIST
+
+    for w in WHITELIST:
+        if "." not in w and w not in ("record", "dynamic"):
+            ns[w] = fieldtype(w)
     return ns
 
 
